@@ -52,7 +52,10 @@ TrRec == /\ r <= Len(Runs) /\ started /\ lr <= Len(Run.recs)
          /\ cur = Run.recs[lr] /\ Last(disk).n = K /\ WriteCell
          /\ lr' = lr + 1 /\ UNCHANGED <<tid, r, le, started>>
 TrEnd == /\ r <= Len(Runs) /\ started /\ lr = Len(Run.recs) + 1 /\ le = {}
-         /\ \/ Run.end = "done" /\ Finish
+         /\ \/ /\ Run.end = "done" /\ Finish
+               \* "an exception raised while evaluating one triple is reported in the log": the run's logger received exactly one
+               \* exception report per failing evaluation of this run (nrep = -1: the log was not observed)
+               /\ Run.nrep \in {-1, Cardinality({i \in DOMAIN Run.evals : <<Run.evals[i][2], Run.evals[i][3], Run.evals[i][4]>> \in shape.fail})}
             \/ /\ Run.end = "crash"
                /\ IF Run.torn = 0 THEN cur = <<"none">> \/ (cur # <<"none">> /\ Last(disk).n = 0)
                   ELSE cur = Run.tornk /\ Last(disk).n = (IF Run.torn >= K THEN K ELSE Run.torn)
